@@ -32,6 +32,10 @@ PURE_METHODS = {"sum", "mean", "max", "min", "std", "var", "dot", "copy", "astyp
                 "terminate", "clip", "is_integer", "bit_length"}
 SCALAR_CONVERSIONS = {"float", "int", "bool", "complex", "str", "len", "abs", "round", "range", "min", "max", "sum", "tuple", "enumerate", "zip", "sorted",
                       "isinstance", "type", "print", "divmod", "any", "all", "repr", "list"}
+# methods of numpy.random.Generator / RandomState / random.Random that advance the generator they are called on
+DRAW_METHODS = {"normal", "standard_normal", "random", "uniform", "integers", "choice", "shuffle", "permutation", "permuted", "poisson", "exponential", "gamma",
+                "beta", "binomial", "randint", "rand", "randn", "random_sample", "bytes", "multivariate_normal", "standard_exponential", "lognormal", "rayleigh",
+                "seed", "gauss", "randrange", "sample", "spawn"}
 LEGACY_RNG_OK = {"default_rng", "Generator", "SeedSequence", "PCG64", "BitGenerator", "RandomState"}
 
 
@@ -49,6 +53,9 @@ class Site:
         self.func, self.lineno, self.what = func, lineno, what
         # P: memory of a parameter, G: module- / class-level object, C: an array the caller handed to the constructor (kept on self)
         self.roots = frozenset(r for r in roots if r[0] in ("P", "G", "C"))
+        # S0: the object an attribute of self held when the method was ENTERED (not one the method allocated itself): writing it in place
+        # changes what an earlier call may have returned to the caller (checked per class by escaping_prestate_writes)
+        self.pre = frozenset(r[1] for r in roots if r[0] == "S0")
 
     @property
     def ok(self):
@@ -351,6 +358,8 @@ class FuncAnalysis:
             if self.is_self(base):
                 out = set(env.get("self." + e.attr, set())) | {("S", e.attr)}
                 if self.is_method and ("self." + e.attr) not in env and not self.qualname.endswith(".__init__"):
+                    out.add(("S0", e.attr))
+                if self.is_method and ("self." + e.attr) not in env and not self.qualname.endswith(".__init__"):
                     owner = self.an.ctor_owned(self.mod, self.qualname.split(".")[0]).get(e.attr)
                     if owner is not None:
                         out.add(("C", "%s (constructor argument %s)" % (e.attr, owner)))
@@ -482,7 +491,12 @@ class FuncAnalysis:
                 from .symex import RepoClass, find_method
                 m = find_method(RepoClass(self.mod, cls), name)
                 if m is not None:
-                    return self.repo_call(m[0], m[1], e, [recv] + args, kwargs)
+                    return self.repo_call(m[0], m[1], e, [recv] + args, kwargs, env=env)
+            shared_gen = sorted(r[1] for r in recv if r[0] in ("G", "C"))
+            if name in DRAW_METHODS and shared_gen:
+                what = "draws (.%s) from the module- / class-level object %s: its state advances from call to call" % (name, shared_gen[0])
+                if not any(h.what == what for h in self.s.hidden):
+                    self.s.hidden.append(Event("hidden", self.fname, lineno, what, set()))
             if name in MUTATING_METHODS:
                 self.s.sites.append(Site(self.fname, lineno, "in-place method .%s()" % name, {r for r in recv if r[0] != "SELF"} |
                                          (set(env.get("self." + f.value.attr, set())) if isinstance(f.value, ast.Attribute) and self.is_self(self.expr(f.value.value, env)) else set())))
@@ -501,10 +515,17 @@ class FuncAnalysis:
             return set()
         return set()
 
-    def repo_call(self, mod, qualname, e, args, kwargs, constructor=False):
+    def repo_call(self, mod, qualname, e, args, kwargs, constructor=False, env=None):
         s = self.an.summary(mod, qualname)
         if s is None:
             return set()
+        if env is not None and self.is_method and not self.qualname.endswith(".__init__"):
+            # a method called on self writes attributes in place: still the entry-state objects unless this method has rebound them before the call
+            for site in s.sites:
+                for attr in site.pre:
+                    cur = env.get("self." + attr)
+                    if cur is None or ("S0", attr) in cur:
+                        self.s.sites.append(Site(self.fname, e.lineno, "calls %s, which writes self.%s in place (%s)" % (qualname, attr, site.what[:40]), {("S0", attr)}))
         out = set()
         names = s.params
         bound = dict(zip(names, args))
@@ -554,8 +575,35 @@ def join(dst, a, b):
     out = {}
     for k in keys:
         out[k] = set(a.get(k, set())) | set(b.get(k, set()))
+        if k.startswith("self.") and (k not in a or k not in b):
+            out[k].add(("S0", k[5:]))       # rebound on one branch only: may still be the object the method was entered with
     dst.clear()
     dst.update(out)
+
+
+def escaping_prestate_writes(an, mod, clsname):
+    """[(qualname, Site, attr)]: a method writes IN PLACE into the object that self.<attr> held when the method was entered, and some method
+    of the class returns (a view of) self.<attr> to the caller: the array an earlier call returned changes under the caller's hands"""
+    quals = [q for q in mod.funcs if q.startswith(clsname + ".")]
+    for node in an.class_chain(mod, clsname)[1:]:
+        quals += [q for q in mod.funcs if q.startswith(node.name + ".")]
+    escaping = set()
+    for q in quals:
+        s = an.summary(mod, q)
+        if s is not None and not q.endswith(".__init__"):
+            escaping |= {r[1] for r in s.returns if r[0] == "S"}
+    out = []
+    for q in quals:
+        s = an.summary(mod, q)
+        if s is None or q.endswith(".__init__"):
+            continue
+        seen = set()
+        for site in s.sites:
+            for attr in sorted(site.pre & escaping):
+                if (site.lineno, attr) not in seen:
+                    seen.add((site.lineno, attr))
+                    out.append((q, site, attr))
+    return sorted(escaping), out
 
 
 def public_functions():
